@@ -51,8 +51,11 @@ LEVEL_TEXT = (
     'SpanHostsFilter and, for lists with one such filter, exactly then (C02_consult_filters, C02_waiver_sound, C02_waiver_exact); the builder '
     'returns exactly the filters the options denote (C02_builder_meets_spec); composed: the verdict on the built filters is in_scope, and with '
     'is_redirect set in_scope minus the span-hosts bullet (C02_filters_meet_spec). Over the hand-written visit model, for every server strategy: '
-    'each request is directly preceded by a passing consult on exactly its URL, waived only for the follow-up of a redirect with strong redirects '
-    'on, robots.txt handling only after the item passed (C02_every_request_checked, C02_every_request_in_scope). Carried by correspondence only: '
+    'each request is preceded by a passing consult on exactly its URL (directly, or with only the robots.txt consultation for that same URL in '
+    'between: redirect targets are robots-checked after they passed the rules), waived only for the follow-up of a redirect with strong redirects '
+    'on, and every robots.txt consultation directly follows a passing consult on the URL it is about (C02_every_request_checked, '
+    'C02_every_request_in_scope). Carried by correspondence only: the retry limit over the visits of one URL in whole crawls (requests as an item '
+    '<= --tries, checked on every crawl log; the per-row rule is C18_tries), '
     'that the processors call consult_filters at those points (end-to-end crawls), the argument parser, URLInfo parsing, the FTP processor (not covered).')
 LEVEL_NOTE = (
     'Trusted: Coq kernel + vm_compute; the translator and the MiniPy interpreter (cross-checked by the differential run against the real classes); '
